@@ -26,5 +26,6 @@ def run(idx, rep, tier):
     aabbtree.r_unique(idx, rep)
     colliders.r_coherence(idx, rep, relevant_to="aabb")      # only what the broad phase reads: the pose and the attributes aabb() uses
     misc2.r_dupcond(idx, rep, [m.name for m in idx.lib_modules()], floor=3)
+    aabbtree.r_bruteforce(idx, rep)      # the brute-force broad phase is the reference the tree queries are interchangeable with
     generic2.r_indextruth(idx, rep, [m.name for m in idx.lib_modules()], floor=10)
     unpack.r_unpack(idx, rep, floor=6)
